@@ -14,7 +14,7 @@ TIMES = [(0, 0, 0, 0), (23, 59, 59, 999999), (12, 34, 56, 789)]
 FORMATS = ["%Y-%m-%d", "%Y-%m-%dT%H:%M:%S", "%Y-%m-%d %H:%M:%S.%f", "%d.%m.%Y", "%Y%m%d%H%M%S"]
 # the family includes empty-matching patterns and patterns whose first alternative / lazy match is shorter than the
 # whole string (where fullmatch, match and search genuinely differ)
-PATTERNS = [r"a", r"a*", r"$", r"\b", r"(?i)x|", r"(\w)(\d+)", r"[^a-z]+", r"^", r"\s", r"(a)|(b)", r".", r"line\d$",
+PATTERNS = [r"", r"a", r"a*", r"$", r"\b", r"(?i)x|", r"(\w)(\d+)", r"[^a-z]+", r"^", r"\s", r"(a)|(b)", r".", r"line\d$",
             r"a|ab", r"a*?", r"x??", r"[a-z]+?", r"(a|ab)(c|bcd)?", r"(?s).+?", r"\w+?\d"]
 STRINGS = ["abc", "aXbXc", "a b\tc", "ÄäÖ", "x1y22z333", "line1\nline2", "aaa", "B", "ab", "x", "abcd", "a1"]
 
@@ -114,14 +114,30 @@ def rec_base(k, f):
     return {"k": k, "f": f, "err": "", "proxy_eq": True, "scalar_eq": True, "xs": [], "out": [], "eq": [], "na": [], "out_na": [], "back_eq": []}
 
 
+def call_then_write(rng, v, elems, unit):
+    """History: some dt function is called on the vector, then an element is overwritten in place; what follows
+    is judged on the vector as it is now (a function of the call's arguments alone)."""
+    import dataiter as di
+    if not elems or rng.random() >= 0.3:
+        return False
+    getattr(di.dt, rng.choice(["year", "day", "weekday"]))(v)
+    getattr(v.dt, rng.choice(["month", "quarter"]))()
+    j = rng.randrange(len(elems))
+    new = None if rng.random() < 0.3 else instant(rng, unit)
+    v[j] = np.datetime64("NaT") if new is None else np.datetime64(new, unit)
+    elems[j] = new
+    return True
+
+
 def do_extract(rng, mask, f, unit):
     import dataiter as di
     elems = [None if m else instant(rng, unit) for m in mask]
     rec = rec_base("extract", f)
-    rec["xs"] = [abs_elem(e) for e in elems]
     rec["unit"] = unit
     try:
         v = dvector(elems, unit)
+        rec["after_write"] = call_then_write(rng, v, elems, unit)
+        rec["xs"] = [abs_elem(e) for e in elems]
         out = getattr(di.dt, f)(v)
         o = np.asarray(out)
         kind = o.dtype.kind
@@ -155,6 +171,8 @@ def do_lift_dt(rng, mask, f, unit):
     rec["na"] = [e is None for e in elems]
     try:
         v = dvector(elems, unit)
+        rec["after_write"] = call_then_write(rng, v, elems, unit)
+        rec["na"] = [e is None for e in elems]
         if f == "replace":
             kw = {}
             choice = rng.choice(["year", "month+dayvec", "dayvec", "time", "yearvec"])
@@ -223,6 +241,16 @@ def do_regex(rng, mask, f):
     try:
         v = di.Vector(strs, str)
         fn, rfn = getattr(di.regex, f), getattr(re, f)
+        if strs and rng.random() < 0.3:
+            # history: a call, an in-place write, then the judged call on the vector as it is now
+            di.regex.search(pat, v)
+            v.re.findall(pat)
+            j = rng.randrange(len(strs))
+            mask = list(mask)
+            mask[j] = rng.random() < 0.3
+            strs[j] = "" if mask[j] else rng.choice(STRINGS)
+            v[j] = strs[j]
+            rec["na"], rec["after_write"] = list(mask), True
         extra, pos = {}, ()
         if f in ("sub", "subn"):
             pos = (rng.choice(["_", r"<\g<0>>", ""]),)
@@ -284,7 +312,7 @@ def do_strproxy(rng, mask):
 
 
 def sig_of(rec):
-    return {"f": rec["f"], "k": rec["k"], "unit": rec.get("unit", ""), "all_missing": bool(rec.get("na")) and all(rec["na"]) if rec["k"] != "extract"
+    return {"after_in_place_write": bool(rec.get("after_write")), "f": rec["f"], "k": rec["k"], "unit": rec.get("unit", ""), "all_missing": bool(rec.get("na")) and all(rec["na"]) if rec["k"] != "extract"
             else bool(rec["xs"]) and all(x["na"] for x in rec["xs"]), "empty": len(rec.get("na") or rec.get("xs") or []) == 0}
 
 
